@@ -7,5 +7,5 @@ git apply "$P" 2>/dev/null || git apply --3way "$P" || { echo APPLY-FAILED; git 
 cd /verif
 ./check "$@" 2>&1 | grep -E "^(VIOLATION|INCONCLUSIVE|ENGINE-ERROR|KNOWN|C[0-9]+ \[)" | cut -c1-330
 RC=${PIPESTATUS[0]}
-git -C /repo checkout -- . ; git -C /repo reset -q
+git -C /repo checkout -f -q HEAD -- .
 echo "exit=$RC"
